@@ -368,6 +368,43 @@ func c17StrictCLI(c *drv.Ctx, sh []shipped) error {
 	dir := filepath.Join(c.Scratch, "c17cli")
 	_ = os.MkdirAll(dir, 0o755)
 	defer os.RemoveAll(dir)
+	// the fixed point through the command itself, installed under other names than "peg"
+	// and started through a relative, an absolute and a PATH-resolved name: the checked-in
+	// file, first line included, is what `peg -inline -switch peg.peg` writes
+	if pegpeg, err := os.ReadFile(filepath.Join(c.Repo, "peg.peg")); err == nil {
+		checked, _ := os.ReadFile(filepath.Join(c.Repo, "peg.peg.go"))
+		binBytes, _ := os.ReadFile(bin)
+		for _, name := range []string{"peg", "peg-regen", "peg.exe", "peg_v2"} {
+			fp := filepath.Join(dir, "fp-"+name)
+			_ = os.MkdirAll(fp, 0o755)
+			_ = os.WriteFile(filepath.Join(fp, "peg.peg"), pegpeg, 0o644)
+			_ = os.WriteFile(filepath.Join(fp, name), binBytes, 0o755)
+			for _, how := range []string{"relative", "absolute", "path"} {
+				_ = os.Remove(filepath.Join(fp, "peg.peg.go"))
+				cmdName, env := "./"+name, []string(nil)
+				switch how {
+				case "absolute":
+					cmdName = filepath.Join(fp, name)
+				case "path":
+					cmdName, env = name, []string{"PATH=" + fp + string(os.PathListSeparator) + os.Getenv("PATH")}
+				}
+				var exit int
+				var stderr string
+				if how == "path" {
+					exit, _, stderr = runPeg("/bin/sh", fp, "", env, "-c", name+" -inline -switch peg.peg")
+				} else {
+					exit, _, stderr = runPeg(cmdName, fp, "", env, "-inline", "-switch", "peg.peg")
+				}
+				c.Stats.Eval()
+				c.Stats.Class("fixed_point_through_command_named_" + name)
+				got, _ := os.ReadFile(filepath.Join(fp, "peg.peg.go"))
+				if exit != 0 || !bytes.Equal(got, checked) {
+					c.AddViolation(drv.Violation{Property: "C17", Kind: "bootstrap-chain", What: fmt.Sprintf("the command installed as %q (started by %s name) run as `%s -inline -switch peg.peg` does not reproduce the checked-in peg.peg.go (exit %d, stderr %q): %s", name, how, name, exit, tail(stderr, 300), firstDiff(checked, got)), Case: map[string]string{"part": "fixed-point-cli", "name": name, "how": how}})
+					return nil
+				}
+			}
+		}
+	}
 	type job struct {
 		s shipped
 		v lab.Variant
